@@ -719,3 +719,100 @@ def bounded_ob(rep, name, fn):
     o = ob_eval(name, ok, kind="bounded", detail=detail, inputs={} if ok else {"scenario": name, "observed": detail}, replay={"confirmed": True, "python": "the real run named in the obligation (contracts.harness.real_ops)"})
     o.bounded = True
     rep.add(o)
+
+
+# ---------------------------------------------------------------------------------------
+# documented observable names (docs/source/theory/intro.rst, docs/source/user): typed here, NOT read from
+# yadism.observable_name -- a specification must not take its vocabulary from the code under test
+DOC_SF_KINDS = ("F2", "FL", "F3", "g1", "gL", "g4")
+DOC_XS_KINDS = ("XSHERANC", "XSHERANCAVG", "XSHERACC", "XSCHORUSCC", "XSNUTEVCC", "XSNUTEVNU", "XSFPFCC", "FW", "F1", "g5")
+DOC_HEAVYNESS = ("charm", "bottom", "top", "light", "total", "charmlight", "bottomlight", "toplight")
+
+
+def observable_names_contract(rep):
+    """yadism.observable_name against the documented vocabulary: exactly the documented kinds are kinds
+    (structure functions vs cross sections), every documented kind x heavyness -- and the bare kind -- is a
+    valid name that parses back into its parts, nothing else is; parity: F3, gL, g4 violate it."""
+    from pvc.core import ob_eval
+    from yadism import observable_name as on
+
+    rep.under_contract(on.ObservableName.__init__, on.ObservableName.is_valid)
+    rep.cases += 1
+    lists_ok = sorted(on.sfs) == sorted(DOC_SF_KINDS) and sorted(on.xs) == sorted(DOC_XS_KINDS) and sorted(on.external_flavors) == sorted(DOC_HEAVYNESS)
+    rep.add(ob_eval(f"{rep.pid}/observable_name/the kinds and heavynesses are the documented ones", lists_ok, detail=f"sfs={on.sfs} xs={on.xs} external_flavors={on.external_flavors}", inputs={} if lists_ok else {"only in the module": str(sorted((set(on.sfs) | set(on.xs)) - set(DOC_SF_KINDS) - set(DOC_XS_KINDS))), "missing from the module": str(sorted((set(DOC_SF_KINDS) | set(DOC_XS_KINDS)) - set(on.sfs) - set(on.xs)))}))
+    bad = []
+    for kind in DOC_SF_KINDS + DOC_XS_KINDS:
+        for fl in DOC_HEAVYNESS + (None,):
+            name = kind if fl is None else f"{kind}_{fl}"
+            try:
+                if not on.ObservableName.is_valid(name):
+                    bad.append((name, "not valid"))
+                    continue
+                o = on.ObservableName(name)
+                if o.kind != kind or o.flavor != (fl or "total") or o.name != f"{kind}_{fl or 'total'}":
+                    bad.append((name, f"parsed as kind={o.kind} flavor={o.flavor} name={o.name}"))
+                if bool(o.is_parity_violating) != (kind in PV_KINDS):
+                    bad.append((name, f"is_parity_violating={o.is_parity_violating}"))
+            except Exception as e:  # noqa
+                bad.append((name, f"{type(e).__name__}: {e}"))
+    for name in ("XSFPFCCFW", "F2_", "F4_total", "XS_total", "pids", "xgrid", "F2_strange", "f2_total", "FW_charmheavy", ""):
+        try:
+            if on.ObservableName.is_valid(name):
+                bad.append((name, "accepted"))
+        except Exception as e:  # noqa
+            bad.append((name, f"{type(e).__name__}: {e}"))
+    rep.cases += 1
+    rep.add(ob_eval(f"{rep.pid}/observable_name/every documented kind x heavyness is a valid name and parses into its parts; nothing else is", not bad, detail=str(bad[:4]), inputs={} if not bad else {"name": bad[0][0], "observed": bad[0][1], "all": str(bad[:8])}))
+
+
+def special_functions_contract(rep):
+    """coefficient_functions/special against their definitions (mpmath, 30 digits) on a lattice that visits
+    every branch of the implementations: Li2 on [-1, 1]; the Nielsen polylogarithms S_{n,p}(x) =
+    (-1)^{n+p-1} / ((n-1)! p!) int_0^1 log^{n-1}(t) log^p(1 - x t) / t dt for the (n, p) the kernels use, on
+    x in [-1, 1] (the implementation switches formula at -1, 0, 1/2, 1 and reads tabulated S_{n,p}(1) in
+    the reflection branch); the zeta constants.  Native evaluation (floats), not a proof for all x."""
+    import mpmath as mp
+
+    from pvc.core import ob_eval
+    from yadism.coefficient_functions import special
+    from yadism.coefficient_functions.special import nielsen as nmod
+
+    mp.mp.dps = 30
+    rep.under_contract(special.li2, nmod.nielsen)
+    xs = (-1.0, -0.8, -0.5, -0.2, -1e-3, 0.0, 1e-3, 0.2, 0.3, 0.45, 0.5, 0.55, 0.7, 0.9, 0.99, 1.0)
+    bad = []
+    for x in xs:
+        try:
+            got = float(special.li2(x))
+            exp = float(mp.polylog(2, x).real)
+            if abs(got - exp) > 1e-10:
+                bad.append((x, got, exp))
+        except Exception as e:  # noqa
+            bad.append((x, f"{type(e).__name__}: {e}", None))
+    rep.cases += 1
+    rep.add(ob_eval(f"{rep.pid}/special/li2 = Li2 on [-1, 1]", not bad, detail=str(bad[:3]), inputs={} if not bad else {"x": bad[0][0], "got": repr(bad[0][1]), "Li2": repr(bad[0][2])}))
+
+    def S(n, p, x):
+        if x == 0:
+            return mp.mpf(0)
+        f = lambda t: mp.log(t) ** (n - 1) * mp.log(1 - x * t) ** p / t  # noqa: E731
+        return ((-1) ** (n + p - 1) / (mp.factorial(n - 1) * mp.factorial(p)) * mp.quad(f, [0, 0.5, 1])).real
+
+    for n, p in ((1, 1), (2, 1), (1, 2), (3, 1), (2, 2), (1, 3)):
+        bad = []
+        for x in xs:
+            try:
+                got = complex(nmod.nielsen(n, p, x)).real
+                exp = float(S(n, p, x))
+                if abs(got - exp) > 2e-9 * max(1.0, abs(exp)):
+                    bad.append((x, got, exp))
+            except Exception as e:  # noqa
+                bad.append((x, f"{type(e).__name__}: {e}", None))
+        rep.cases += 1
+        rep.add(ob_eval(f"{rep.pid}/special/nielsen({n},{p},x) = S_{{{n},{p}}}(x) on [-1, 1] (every branch)", not bad, detail=str(bad[:3]), inputs={} if not bad else {"n": n, "p": p, "x": bad[0][0], "got": repr(bad[0][1]), "S_np": repr(bad[0][2])}, replay={"confirmed": True, "python": f"yadism.coefficient_functions.special.nielsen.nielsen({n}, {p}, x)"}))
+    consts = {"zeta2": mp.zeta(2), "zeta3": mp.zeta(3), "zeta4": mp.zeta(4), "zeta5": mp.zeta(5)}
+    from yadism.coefficient_functions.special import zeta as zmod
+
+    bad = [(k, getattr(zmod, k), float(v)) for k, v in consts.items() if hasattr(zmod, k) and abs(float(getattr(zmod, k)) - float(v)) > 1e-14]
+    rep.cases += 1
+    rep.add(ob_eval(f"{rep.pid}/special/zeta constants", not bad, detail=str(bad), inputs={} if not bad else {"constant": bad[0][0], "got": repr(bad[0][1]), "value": repr(bad[0][2])}))
